@@ -525,6 +525,10 @@ func Discharge(fr *FuncResult, opts DischargeOpts) []OblResult {
 				jopts.FullTimeout = 0
 			}
 			r := x.solveJob(j.pcs, j.goals, jopts)
+			if os.Getenv("VCHECK_VERBOSE") != "" && r.Verdict == VUnsat && r.Dur.Seconds() > 5 {
+				fmt.Fprintf(os.Stderr, "  [slow instance %d of %s: unsat by %s in %.1fs]\n", j.first, fr.Obligations[j.oi].Name(), r.Solver, r.Dur.Seconds())
+				os.WriteFile(fmt.Sprintf("/tmp/vcheck_slow_%d_%s.smt2", j.first, safeFile(fr.Obligations[j.oi].Name())), []byte(r.Raw), 0o644)
+			}
 			if os.Getenv("VCHECK_VERBOSE") != "" && r.Verdict != VUnsat {
 				fmt.Fprintf(os.Stderr, "  [instance %d of %s: %s by %s in %.1fs]\n", j.first, fr.Obligations[j.oi].Name(), r.Verdict, r.Solver, r.Dur.Seconds())
 				os.WriteFile(fmt.Sprintf("/tmp/vcheck_inst_%d.smt2", j.first), []byte(r.Raw), 0o644)
@@ -595,6 +599,9 @@ func (x *Exec) solveJob(pcs [][]*Term, goals []*Term, opts DischargeOpts) solveO
 				return solveOut{VUnknown, sp.Name, time.Since(t0), rr.Model, script + "\n; cross-check disagreement: " + sp.Name + " says sat"}
 			}
 		}
+	}
+	if os.Getenv("VCHECK_VERBOSE") != "" {
+		return solveOut{VUnsat, r.Solver, time.Since(t0), "", script}
 	}
 	return solveOut{VUnsat, r.Solver, time.Since(t0), "", ""}
 }
